@@ -41,13 +41,18 @@ StepClient == /\ Ev.a = "client"
               /\ told' = Ev.primary /\ pdead' = FALSE /\ sdead' = FALSE /\ leader' = Ev.leader /\ mode' = [h \in Hosts |-> "ok"]
               /\ cfg' = [discovery |-> Ev.discovery, health |-> Ev.health, revive |-> Ev.revive] /\ nreq' = 0 /\ expect' = FALSE
               /\ UNCHANGED viol
+(* the answer to a request that the HTTP layer sent on by itself after a 3xx belongs to the request
+   to the OLD primary: a failure marks that endpoint, not the new believed leader *)
+Followed == l > 1 /\ Trace[l - 1].a = "rt" /\ Trace[l - 1].resp = "3xx" /\ Trace[l - 1].told = Ev.host
 StepRt == /\ Ev.a = "rt"
           /\ told' = IF Ev.told # "" THEN Ev.told ELSE told
           /\ pdead' = IF Ev.told # "" THEN FALSE
+                      ELSE IF Followed THEN pdead
                       ELSE IF Ev.host = told /\ Ev.resp \in {"none", "5xx", "4xx"} THEN TRUE   \* (a read that fails marks its endpoint dead, also on 4xx)
                       ELSE IF Ev.host = told /\ Ev.resp \in {"2xx", "3xx"} THEN FALSE ELSE pdead
           (* sdead: the primary is certainly marked dead (transport error or 5xx); pdead: it may be *)
           /\ sdead' = IF Ev.told # "" THEN FALSE
+                      ELSE IF Followed THEN sdead
                       ELSE IF Ev.host = told /\ Ev.resp \in {"none", "5xx"} THEN TRUE
                       ELSE IF Ev.host = told /\ Ev.resp \in {"2xx", "3xx"} THEN FALSE ELSE sdead
           /\ nreq' = nreq + 1
